@@ -21,13 +21,14 @@ import "fmt"
 //	4  chain of three with a bidirectional pair: :P0 -> :P1 <-> :P2 -> :P3, target(:P3), supplied :P0
 //	5  two parameters converted by the same type-only converter from competing named inputs
 //	   with subtypes (name affinity across parameters)
+//	7  two converters of identical Go type and a hopeless named parameter (C13's converter list)
 //	6  deep diamond: supplied :P0; a(:P0)->:P1; b(:P0)->:P2; c(:P1,:P2)->:P3; d(:P3)->:P4;
 //	   e(:P3,:P4)->:I' (P2-valued output typed P2 here); target needs e's output
 func hSkeleton(id, form, errMode int) *hWorld {
 	w := &hWorld{}
 	symOnce := errMode&2 != 0
 	withErr := errMode&1 != 0
-	subs := []string{"", "s", "t"}
+	subs := []string{"", "s", "S"}
 	names := []string{"", "a", "b"}
 	sub := func(tag string) string { return subs[vnChoice(tag, 3)] }
 	name := func(tag string) string { return names[vnChoice(tag, 3)] }
@@ -130,6 +131,14 @@ func hSkeleton(id, form, errMode int) *hWorld {
 		conv(3, []hLabel{{T: hTP1}, {T: hTP3}}, []hLabel{{T: hTP4}})
 		conv(4, []hLabel{{T: hTP4}}, []hLabel{{Name: "a", T: hTP1, Sub: "s"}})
 		conv(5, []hLabel{{T: hTP4}, {Name: "a", T: hTP1, Sub: "s"}}, []hLabel{{T: hTP2}})
+		val(hLabel{T: hTP0})
+	case 7:
+		// two supplied converters of identical Go type (one graph vertex for the library)
+		// next to a hopeless named parameter
+		target(hLabel{T: hTP1}, hLabel{Name: nameNE("hn"), T: hTP3})
+		conv(1, []hLabel{{T: hTP0}}, []hLabel{{T: hTP1}})
+		conv(2, []hLabel{{T: hTP0}}, []hLabel{{T: hTP1}})
+		w.Convs[1].Form = w.Convs[0].Form
 		val(hLabel{T: hTP0})
 	default:
 		vnAssume(false)
